@@ -25,6 +25,7 @@ type Case struct {
 	Variant  int              `json:"variant,omitempty"`    // non-period parameters scaled by variantFactor[Variant]
 	Procs    int              `json:"gomaxprocs,omitempty"` // GOMAXPROCS of the process that found it (replay sets it again)
 	Local    int              `json:"local_zone_hours,omitempty"` // the process's local time zone during the case (UTC+h); 0 = UTC
+	Lock     bool             `json:"lockstep_readers,omitempty"` // C09 concurrent mode: one consumer reads the outputs of all calls in turn
 	Late     bool             `json:"late_feed,omitempty"` // pipelines: the producers start only after the constructor (Compute) has returned
 	Nbr      bool             `json:"neighbour,omitempty"` // C03: an unrelated helper pipeline runs in the same simulation
 	Pub      bool             `json:"public_fields_only,omitempty"` // scaled configurations touch exported fields only (what a user can assign after construction)
